@@ -13,7 +13,7 @@ func init() {
 		if c.Thorough {
 			common += "Thorough replaces structure<=4 (original label order) by 6 profiles (adds tags[y]) and 64 invocations ((tags,exclude) in {(-,-),(x,-),(-,y),(x,y)}), and adds: [structure=5] all 5-node graphs (5th label //a:b) with profiles {plain, tags[x], platforms[os/q], test target xtest}, 16 invocations ({//..., //a/...} x --tag {none,x} x build/test x --all-platforms off/on); [patterns=3] all 3-node graphs over the 20 labels x the 15 single patterns, build; [filters=3] all 3-node graphs on //a:x, //a/b:b, //:y with every tags x platforms value x the 72 build invocations of filters<=2. "
 		}
-		c.R.Rule = common + "A configuration is non-trivial when the reference demands an error (a target that has to be built has a platform-incompatible transitive dependency) or demands at least one selected target while at least one other target must stay unselected. Outcomes = distinct (set of selected target labels | error)."
+		c.R.Rule = common + "A configuration is non-trivial when the reference demands an error (a target that has to be built has a platform-incompatible transitive dependency) or demands at least one selected target while at least one other target must stay unselected. Outcomes = distinct (set of selected target labels | error). Host platform os/pq with selectors os/p (a strict prefix of the host platform is not a match)."
 		c.R.Assume(
 			"a test target is one whose name ends in 'test' (model.Target.IsTest); only the names x,y,a,b (non-test) and xtest (test) occur",
 			"several --tag values mean any-of (topics/querying.mdx); --exclude-tag removes a target only as a root, never as a dependency (statement)",
